@@ -13,6 +13,7 @@
     lock/unlock pairs around callbacks are balanced on every path. *)
 From Ark Require Import Model.Base Model.Mask Model.Pool Model.World Model.Run.
 From Ark Require Import Proofs.LockSpec Proofs.LockProofs Proofs.LockWorld Properties.Common.
+From Ark Require Import Model.Util Proofs.Rel2Defs Proofs.Rel2Hist Proofs.Rel2HistQ Proofs.Rel2HistQL.
 
 Theorem C07_mask_exact :
   forall ops b, let g := lrun ops in mk_get (lk_mask (lg_lock g)) b = true <-> In b (lg_held g).
@@ -60,5 +61,54 @@ Example C07_lock_history :
 Proof. vm_compute. split; reflexivity. Qed.
 
 (** One traversal of the dependency graph for all theorems of this file. *)
-Definition C07_all := (C07_mask_exact, C07_held_distinct_below_64, C07_locked_iff_held, C07_lock_fresh_or_exhausted, C07_unlock_balanced, C07_structural_blocked, C07_reads_do_not_change_state).
+
+(** ** World level, over HISTORIES (Rel2HistQ / Rel2HistQL): every state reachable from a new world - relation
+    components included - by a history of the single-entity operations, Shrink, reads, filter creation,
+    Register / Unregister and the query operations (open, Next, Close, Count, EntityAt, Entity, iterate-all),
+    with ARBITRARY arguments (unknown or closed queries, malformed relation lists, stale handles), states at
+    recovered panics included. [rel_q_line] is the syntactic class of script lines; its only semantic side
+    conditions are that added component ids are registered and that the relations fixed in an UnsafeFilter
+    name relation components of the filter (shown necessary: [r2q_register_unsafe_refuted_*]). *)
+
+(** The world is locked exactly when some query is open (created, not yet exhausted or closed). *)
+Theorem C07_locked_iff_some_query_open : forall c lines,
+  cfg_ok2 c -> Forall (rel_q_line (sc_kinds c)) lines -> length lines + 4 < Nat.pow 2 31 ->
+  let s := Properties.Common.exec c lines in
+  is_locked s = true <-> exists qi q, nth_error (w_queries s) qi = Some q /\ 1 <= q_tab q.
+Proof. exact reachable_locked_iff_open. Qed.
+
+(** Every open query holds its own lock bit: the bit is set, no two open queries share one, and every set
+    bit belongs to an open query (no leaked bit, no double release, whatever the recycle order). *)
+Theorem C07_open_queries_hold_distinct_bits : forall c lines,
+  cfg_ok2 c -> Forall (rel_q_line (sc_kinds c)) lines -> length lines + 4 < Nat.pow 2 31 ->
+  let s := Properties.Common.exec c lines in
+  (forall qi q, nth_error (w_queries s) qi = Some q -> 1 <= q_tab q -> mk_get (lk_mask (w_lock s)) (q_lock q) = true) /\
+  (forall qi qj q q', nth_error (w_queries s) qi = Some q -> nth_error (w_queries s) qj = Some q' ->
+     1 <= q_tab q -> 1 <= q_tab q' -> q_lock q = q_lock q' -> qi = qj) /\
+  (forall b, mk_get (lk_mask (w_lock s)) b = true ->
+     exists qi q, nth_error (w_queries s) qi = Some q /\ 1 <= q_tab q /\ q_lock q = b).
+Proof. exact reachable_open_bits. Qed.
+
+(** Closing any query object - open, exhausted or already closed - succeeds (closing again is harmless). *)
+Theorem C07_close_always_succeeds : forall c lines qi q,
+  cfg_ok2 c -> Forall (rel_q_line (sc_kinds c)) lines -> length lines + 4 < Nat.pow 2 31 ->
+  nth_error (w_queries (Properties.Common.exec c lines)) qi = Some q ->
+  exists s', step_op (sc_debug c) (OQueryClose qi) (Properties.Common.exec c lines) = Ok [] s' /\ LQ s' /\
+    (exists q', nth_error (w_queries s') qi = Some q' /\ q_tab q' = 0).
+Proof. exact reachable_close_ok. Qed.
+
+(** In every reachable LOCKED state a structure-changing operation (Shrink and Reset included) fails and the
+    next state is EXACTLY the state before. *)
+Theorem C07_reachable_locked_structural_unchanged : forall c lines wd line o,
+  Forall (rel_q_line (sc_kinds c)) lines ->
+  is_locked (Properties.Common.exec c lines) = true -> decode_op line = Some o -> structural o = true ->
+  (exists er, step_op (sc_debug c) o (Properties.Common.exec c lines) = Err er (Properties.Common.exec c lines)) /\
+  fst (step (sc_debug c) wd (Properties.Common.exec c lines) line) = Properties.Common.exec c lines.
+Proof. exact reachable_locked_structural_unchanged. Qed.
+
+(** Non-vacuity: a script with a relation component, a registered filter, two open queries, rejected structural
+    calls inside the locked window; the lock bits and cursors at five points of it. *)
+Definition C07_history_examples := (r2q_script_inv, r2q_mid_inv, r2q_mid_shape, r2q_mid_blocked, r2l_mid_LQ, r2l_script_locks, r2l_mid_close).
+
+Definition C07_all := (C07_locked_iff_some_query_open, C07_open_queries_hold_distinct_bits, C07_close_always_succeeds, C07_reachable_locked_structural_unchanged, C07_history_examples, C07_mask_exact, C07_held_distinct_below_64, C07_locked_iff_held, C07_lock_fresh_or_exhausted, C07_unlock_balanced, C07_structural_blocked, C07_reads_do_not_change_state).
 Print Assumptions C07_all.
